@@ -110,10 +110,7 @@ Proof.
     apply in_flat_map. exists j. split; [apply in_seq; lia|]. rewrite Hz, Nat.eqb_refl. cbn. auto.
 Qed.
 
-(* the model is of the code as written; for 2k > n the code returns the edgeless graph, which
-   is not the documented containment graph (GENUINE DEFECT in notes/C06.md): this theorem says
-   what the code builds for every k <= n, and it is the documented graph exactly when the
-   k-subset can be the smaller one *)
+(* what the (repaired) code builds for every k <= n, in terms of IntersectionSize *)
 Theorem bipartite_kneser_ok n k : k <= n ->
   builds (bipartite_kneser n k) (binom n k + binom n k) (bikneser_def n k (binom n k)).
 Proof.
@@ -129,7 +126,7 @@ Proof.
     rewrite map_nth, seq_nth by auto. reflexivity. }
   apply family_ok.
   - intros e He. apply bikneser_in in He. destruct He as (i & j & Hi & Hj & _ & ->). cbn. lia.
-  - intros x y Hx Hy. apply eq_iff_eq_true. rewrite in_pairs_true. unfold bikneser_def.
+  - intros x y Hx Hy. apply eq_iff_eq_true. rewrite in_pairs_true. unfold bikneser_def. set (sm := Nat.min k (n - k)).
     rewrite orb_true_iff, !andb_true_iff, !Nat.eqb_eq, !Nat.ltb_lt, !Nat.leb_le. split.
     + intros (Hne & e & He & H'). apply bikneser_in in He.
       destruct He as (i & j & Hi & Hj & Hz & ->). cbn [fst snd] in H'. rewrite Lu in *.
